@@ -449,6 +449,38 @@ def c20_tree(prop, key, index, tier):
             if not parent.jobs and parent is not top and parent not in info['empties']:
                 info['empties'].append(parent)
         out.count('trees pruned after having been queried (history)')
+    if index % 5 == 4 and info['nested'] and len(info['atoms']) >= 2:
+        # history: some schedulers of the tree are scanned on their own, an
+        # uneven number of times (check_cycles() / topological_order() of a
+        # PureScheduler do not recurse), then jobs move from one scheduler of the
+        # tree to another
+        allscheds = [top] + info['nested']
+        try:
+            for _ in range(rng.randint(1, 4)):
+                s_ = rng.choice(allscheds)
+                if rng.random() < 0.5:
+                    s_.check_cycles()
+                else:
+                    list(s_.topological_order())
+        except BaseException as exc:                    # noqa
+            out.violation('dot-raised', "while scanning parts of the tree: %r" % (exc,))
+        for _ in range(rng.randint(1, 2)):
+            a = rng.choice(info['atoms'])
+            src = info['parent'][a]
+            dst = rng.choice([s_ for s_ in allscheds if s_ is not src])
+            for j in src.jobs:
+                j.required.discard(a)
+            src.remove(a)
+            a.required.clear()
+            if dst.jobs and rng.random() < 0.6:
+                a.requires(rng.choice(sorted(dst.jobs, key=lambda j: j.name)))
+            dst.add(a)
+            info['parent'][a] = dst
+            if not src.jobs and src is not top and src not in info['empties']:
+                info['empties'].append(src)
+            if dst in info['empties']:
+                info['empties'].remove(dst)
+        out.count('trees in which jobs moved between schedulers after partial scans (history)')
     if info['empties']:
         out.count('trees with an empty nested scheduler')
     try:
